@@ -36,13 +36,18 @@ def codeOfFacts : Option Code :=
       workersNotBlocking := Generated.Pool.workersGuard.contains 0,
       workersLimitPos := Generated.Pool.workersGuard.contains 1 }
 
-/-- The source has the shape the theorems are about: `dispatch` is unbuffered and assigned once; the switch is
+/-- one hand-off channel per run, as read from `Start` -/
+def runsCodeOfFacts : RunsCode := { perRun := Generated.Pool.dispatchPerRun }
+
+/-- The source has the shape the theorems are about: `dispatch` is unbuffered, made once per run in `Start` and
+    that one value is handed to the loop and to the workers of the run (nothing else is called dispatch); the switch is
     `case BlockingExecution` (inline) / `case WorkerLimit > 0` (send on dispatch or ctx.Done) / `default` (go);
     `startWorkers` is guarded by exactly `!BlockingExecution && WorkerLimit > 0`, starts one goroutine per
     `i < WorkerLimit`, and a worker receives a job only between executions. -/
 theorem C12_facts :
     codeOfFacts = some Code.std ∧ Generated.Pool.workersGuard = [0, 1] ∧
-      Generated.Pool.workerLoopStd = true ∧ Generated.Pool.workerBodyStd = true := by
+      Generated.Pool.workerLoopStd = true ∧ Generated.Pool.workerBodyStd = true ∧
+      runsCodeOfFacts = RunsCode.std := by
   decide
 
 /-! ## blocking mode -/
@@ -188,6 +193,36 @@ theorem C12_unbounded_no_bound (code : Code) (hc : code = Code.std) (m : Nat) :
   have hw0 : s.workers = [] := by rw [hw]; simp [init, Code.workers, c]
   simp [inflight, busy, hpc, hsp, hw0, init]
 
+/-! ## several runs side by side -/
+
+/-- Workers of run `h` only ever execute jobs handed off by the loop of run `h` — in every reachable state of any
+    number of runs living side by side (stopped runs whose workers are still busy included). Since a worker runs every
+    job with the context of its own run, a job is always executed under the context of the run that dispatched it, and
+    the executions of jobs of one run are confined to that run's own `n` workers (`C12_pool_le_n` applies per run). -/
+theorem C12_handoff_within_run (code : RunsCode) (hc : code = RunsCode.std) (s : RSt) (hr : RReach code s)
+    (h i g : Nat) (he : executes s h i g) : g = h := by
+  subst hc
+  obtain ⟨as, hrun⟩ := hr
+  obtain ⟨r, hr1, hr2⟩ := he
+  exact invR_run as rinit s (by intro h r hh; simp [rinit] at hh) hrun h r hr1 i g hr2
+
+/-- Negative control — the defect repaired by the per-run channel. With ONE channel shared by all runs the following
+    is reachable with WorkerLimit 1: run 0 is stopped while its worker is busy; run 1 starts; the stale worker comes
+    back, finds a job of run 1 ready on the shared channel and takes it: it executes a job dispatched by the loop of
+    run 1 under run 0's CANCELLED context, while run 1's own worker is busy too — two executions of run-1 jobs with
+    WorkerLimit 1. With the channel per run the last step of the same trace is impossible. -/
+theorem C12_stale_worker_steals_shared_channel :
+    (∃ s r0 r1, RReach { perRun := false } s ∧ s.runs = [r0, r1] ∧
+      executes s 0 0 1 ∧ r0.cancelled = true ∧ executes s 1 0 1 ∧ r1.cancelled = false ∧ r1.workers.length = 1) ∧
+    rrun RunsCode.std rinit [.start 1, .fetch 0, .handoff 0 0 0, .cancel 0, .start 1, .workerDone 0 0, .fetch 1,
+      .handoff 1 1 0, .fetch 1, .handoff 1 0 0] = none := by
+  constructor
+  · refine ⟨{ runs := [{ cancelled := true, loopAlive := true, holding := false, workers := [.busy 1] },
+                       { cancelled := false, loopAlive := true, holding := false, workers := [.busy 1] }] },
+      _, _, ⟨[.start 1, .fetch 0, .handoff 0 0 0, .cancel 0, .start 1, .workerDone 0 0, .fetch 1,
+              .handoff 1 1 0, .fetch 1, .handoff 1 0 0], (by decide)⟩, rfl, ⟨_, rfl, rfl⟩, rfl, ⟨_, rfl, rfl⟩, rfl, rfl⟩
+  · decide
+
 /-! ## the statements for the code as read from the source -/
 
 theorem C12_blocking_le_one_code (code : Code) (h : codeOfFacts = some code) (c : Cfg)
@@ -206,6 +241,14 @@ theorem C12_unbounded_loop_never_waits_code (code : Code) (h : codeOfFacts = som
   ⟨s', h1, h2⟩
 
 /-! ## non-vacuity and negative controls -/
+
+/-- `C12_handoff_within_run` is not vacuous: a stale busy worker of run 0 beside a busy worker of run 1 is reachable
+    for the code as it is -/
+example : ∃ s, RReach RunsCode.std s ∧ executes s 0 0 0 ∧ executes s 1 0 1 :=
+  ⟨{ runs := [{ cancelled := true, loopAlive := true, holding := false, workers := [.busy 0] },
+              { cancelled := false, loopAlive := true, holding := false, workers := [.busy 1] }] },
+   ⟨[.start 1, .fetch 0, .handoff 0 0 0, .cancel 0, .start 1, .fetch 1, .handoff 1 1 0], by decide⟩,
+   ⟨_, rfl, rfl⟩, ⟨_, rfl, rfl⟩⟩
 
 /-- blocking: one execution in flight is reachable (the bound 1 is attained) -/
 example : ∃ s, Reach Code.std ⟨true, 4⟩ s ∧ inflight s = 1 :=
